@@ -544,6 +544,9 @@ def interpreter_modes(ctx):
             both.append((tl, tw[tl], twin_want[tl]))
     keep = both
     text = "\n".join(k[0] for k in keep) + "\n"
+    selectors = ctx.pid == "C15"                       # the property that speaks about how selectors are refused
+    if selectors:
+        text += "@selectors\n"
     env = dict(os.environ, PYEMV_REPO=core.REPO)
     env.pop("PYTHONOPTIMIZE", None)
     n = 0
@@ -566,6 +569,16 @@ def interpreter_modes(ctx):
                                    "detail": f"child interpreter exited {r.returncode} after {len(out) - 1} of {len(kp)} answers: {r.stderr.strip()[-300:]}",
                                    "op": "interpreter mode " + " ".join(flags)})
             continue
+        if selectors and flags != ["byteorder=big"] and len(out) > len(kp):
+            for item in out[len(kp)].split():
+                what, _, cls = item.partition("=")
+                want_cls = "ValueError" if what.startswith("mac_iso9797_3") else "TypeError"
+                n += 1
+                if cls != want_cls:
+                    ctx.violations.append({"kind": "predicate", "predicate": "unknown selectors are refused with TypeError, MAC padding methods other than 1 or 2 with ValueError (interpreter flags " + " ".join(flags) + ")",
+                                           "detail": f"python {' '.join(flags)}: {what} -> {cls}, expected {want_cls} (index into gens.NON_MEMBERS / gens.BAD_PADDINGS)",
+                                           "op": what})
+                    break
         for (line, proj, want), g in zip(kp, out):
             n += 1
             if PROJ[proj](g) != PROJ[proj](want):
